@@ -34,7 +34,9 @@ Inductive oitem :=
 | OFree (failure given : bool)                              (* cpputest_free: a failure was reported / the block reached the allocator that handed it out *)
 | ORealloc (r : ares) (failure intact : bool)               (* cpputest_realloc: result, failure reported, the bytes of the (old or moved) block are as written *)
 | ODup (r : ares) (src_intact : bool)                       (* strdup / strndup of the string held by a tracked block *)
-| OEnd (tracked : Z) (clean : bool).                        (* blocks the detector still tracks; everything handed out came back once they are released *)
+| OEnd (tracked : Z) (clean : bool)                         (* blocks the detector still tracks; everything handed out came back once they are released *)
+| OCheckT (before after : Z) (rep : option report)          (* the check asked inside a running test: failures of that test before / after, what was reported *)
+| OPhase (executed : nat).                                  (* end of setup / body / teardown: how many of its events were started *)
 
 Definition ares_eqb (a b : ares) : bool :=
   match a, b with ROk, ROk | RNull, RNull | RBadAlloc, RBadAlloc | RCrash, RCrash => true | _, _ => false end.
@@ -58,10 +60,17 @@ Inductive rop :=
 | RFailG (n : Z)                   (* failAllocNumber(n) on the FailableMemoryAllocator that is the test's malloc allocator *)
 | RClearF.                         (* its clearFailedAllocs() *)
 
+(* what a running test does besides talking to the failable allocator *)
+Inductive tev :=
+| TOp (o : op)                     (* designate / request / ask for the check / clear, from inside the test *)
+| TAdd                             (* UtestShell::addFailure: a failure is recorded and the test function goes on *)
+| TFail.                           (* a failed CHECK / FAIL(): failWith = addFailure, then the current test function is left *)
+
 Inductive scenario :=
 | SFail (ops : list op)
 | SCount (custom : bool) (cops : list cop)    (* custom: a test-installed malloc allocator is current at the start *)
-| SRel (backing : alloc_id) (rops : list rop). (* backing: the malloc allocator that is current at the start (default, the test's, a failable one) *)
+| SRel (backing : alloc_id) (rops : list rop)  (* backing: the malloc allocator that is current at the start (default, the test's, a failable one) *)
+| STest (pre : Z) (su bo td : list tev).       (* one test: failures a plugin recorded before it starts, events of setup / body / teardown *)
 
 (* ------------------------------------------------------------------ model: FailableMemoryAllocator *)
 Record node := { n_num : Z; n_act : Z; n_loc : option loc }.    (* allocNumberToFail_, actualAllocNumber_, file_/line_ *)
@@ -316,11 +325,76 @@ Definition rmrun := rmrun_gen resolve.
 Definition rst0 (b : alloc_id) : rst :=
   {| r_c := {| c_counter := -1; c_orig := None; c_cur := Some b |}; r_for := None; r_f := st0; r_slots := []; r_lost := false |}.
 
+
+(* ------------------------------------------------------------------ model: the check asked from inside a running test *)
+(* checkAllFailedAllocsWereDone() reports through UtestShell::getCurrent()->failWith(...): the failure is added to the
+   running test (whatever that test has recorded before) and the current test function -- setup, body or teardown -- is
+   left.  Utest::run: the body runs only when setup was not left, teardown always.
+   t_n = failures recorded so far for the running test (UtestShell::hasFailed_ is set by every addFailure of the test). *)
+Record tst := { t_f : st; t_n : Z }.
+Definition with_n (t : tst) (n : Z) : tst := {| t_f := t_f t; t_n := n |}.
+(* mute = the variant that keeps quiet once the test has a failure (not the code; kept for the refutation lemma) *)
+Definition tstep_gen (mute : bool) (t : tst) (e : tev) : tst * option oitem * bool :=
+  match e with
+  | TOp Check =>
+      match (if mute && (0 <? t_n t) then None else check_report (t_f t)) with
+      | None => (t, Some (OCheckT (t_n t) (t_n t) None), false)
+      | Some r => (with_n t (t_n t + 1), Some (OCheckT (t_n t) (t_n t + 1) (Some r)), true)
+      end
+  | TOp o => let (s', it) := mstep (t_f t) o in ({| t_f := s'; t_n := t_n t |}, it, false)
+  | TAdd => (with_n t (t_n t + 1), None, false)
+  | TFail => (with_n t (t_n t + 1), None, true)
+  end.
+Definition tnext (mute : bool) (t : tst) (e : tev) : tst := fst (fst (tstep_gen mute t e)).
+Definition tleaves (mute : bool) (t : tst) (e : tev) : bool := snd (tstep_gen mute t e).
+(* how many events of a test function are started (the one that leaves it included), and whether it was left *)
+Fixpoint texec (mute : bool) (t : tst) (evs : list tev) : nat * bool :=
+  match evs with
+  | [] => (O, false)
+  | e :: r => if tleaves mute t e then (1%nat, true)
+              else let (k, l) := texec mute (tnext mute t e) r in (S k, l)
+  end.
+(* items and final state of a list of events that are all carried out *)
+Fixpoint titems (mute : bool) (t : tst) (evs : list tev) : list oitem :=
+  match evs with
+  | [] => []
+  | e :: r => match snd (fst (tstep_gen mute t e)) with
+              | Some i => i :: titems mute (tnext mute t e) r
+              | None => titems mute (tnext mute t e) r
+              end
+  end.
+Fixpoint tmrun (mute : bool) (t : tst) (evs : list tev) : tst :=
+  match evs with [] => t | e :: r => tmrun mute (tnext mute t e) r end.
+Definition tst0 (pre : Z) : tst := {| t_f := st0; t_n := pre |}.
+(* the events carried out in setup, body, teardown *)
+Definition tparts (mute : bool) (pre : Z) (su bo td : list tev) : list tev * list tev * list tev :=
+  let t0 := tst0 pre in
+  let (k1, l1) := texec mute t0 su in
+  let e1 := firstn k1 su in
+  let t1 := tmrun mute t0 e1 in
+  let k2 := if l1 then O else fst (texec mute t1 bo) in
+  let e2 := firstn k2 bo in
+  let t2 := tmrun mute t1 e2 in
+  let e3 := firstn (fst (texec mute t2 td)) td in
+  (e1, e2, e3).
+Definition trun_gen (mute : bool) (pre : Z) (su bo td : list tev) : list oitem :=
+  let '(e1, e2, e3) := tparts mute pre su bo td in
+  let t0 := tst0 pre in
+  let t1 := tmrun mute t0 e1 in
+  let t2 := tmrun mute t1 e2 in
+  titems mute t0 e1 ++ OPhase (length e1) :: titems mute t1 e2 ++ OPhase (length e2) :: titems mute t2 e3 ++ [OPhase (length e3)].
+Fixpoint ops_of (evs : list tev) : list op :=
+  match evs with [] => [] | TOp o :: r => o :: ops_of r | _ :: r => ops_of r end.
+(* the allocator's history as the test goes through it *)
+Definition teff (pre : Z) (su bo td : list tev) : list tev :=
+  let '(e1, e2, e3) := tparts false pre su bo td in e1 ++ e2 ++ e3.
+
 Definition run (s : scenario) : list oitem :=
   match s with
   | SFail ops => run_from st0 ops
   | SCount custom cops => crun_from (cst0 custom) cops
   | SRel b rops => rrun_from (rst0 b) rops
+  | STest pre su bo td => trun_gen false pre su bo td
   end.
 
 (* ------------------------------------------------------------------ spec (model-free): designated allocations by counting *)
@@ -521,17 +595,57 @@ Fixpoint rvalid_from (b : alloc_id) (s : qst) (ops : list rop) : bool :=
 Fixpoint qrun (b : alloc_id) (s : qst) (ops : list rop) : qst :=
   match ops with [] => s | o :: r => qrun b (qstep b s o) r end.
 
+
+(* ------------------------------------------------------------------ spec: the check asked from inside a running test *)
+(* The observation tells which events of setup / body / teardown were started (the property does not say when a test
+   function is left).  Over that history the old oracle decides every request and every check -- a report iff a designation
+   still waits, naming one that does -- and it never looks at the failures the test had before: a report makes the count
+   grow, no report leaves it alone, whatever the count was. *)
+Fixpoint take_phase (obs : list oitem) : option (list oitem * nat * list oitem) :=
+  match obs with
+  | [] => None
+  | OPhase k :: r => Some ([], k, r)
+  | it :: r => match take_phase r with Some (a, k, r') => Some (it :: a, k, r') | None => None end
+  end.
+Definition strip (it : oitem) : oitem := match it with OCheckT _ _ rep => OCheck rep | _ => it end.
+Definition count_ok (it : oitem) : bool :=
+  match it with
+  | OCheckT b a None => a =? b
+  | OCheckT b a (Some _) => b <? a
+  | OCheck _ => false                 (* inside a test every check comes with the counts *)
+  | _ => true
+  end.
+Definition tcheck (su bo td : list tev) (obs : list oitem) : bool :=
+  match take_phase obs with
+  | Some (i1, k1, r1) =>
+    match take_phase r1 with
+    | Some (i2, k2, r2) =>
+      match take_phase r2 with
+      | Some (i3, k3, []) =>
+          Nat.leb k1 (length su) && Nat.leb k2 (length bo) && Nat.leb k3 (length td) &&
+          (let ops := ops_of (firstn k1 su ++ firstn k2 bo ++ firstn k3 td) in
+           let items := i1 ++ i2 ++ i3 in
+           negb (valid_from 0 [] ops 0) || (check 0 [] ops 0 (map strip items) && forallb count_ok items))
+      | _ => false
+      end
+    | None => false
+    end
+  | None => false
+  end.
+
 Definition spec (s : scenario) (obs : list oitem) : bool :=
   match s with
   | SFail ops => check 0 [] ops 0 obs
   | SCount custom cops => ccheck custom None 0 cops obs
   | SRel b rops => rcheck b qst0 rops obs
+  | STest _ su bo td => tcheck su bo td obs
   end.
 Definition valid (s : scenario) : bool :=
   match s with
   | SFail ops => valid_from 0 [] ops 0
   | SCount custom cops => cvalid custom None 0 cops
   | SRel b rops => negb (is_null b) && rvalid_from b qst0 rops
+  | STest pre su bo td => (0 <=? pre) && valid_from 0 [] (ops_of (teff pre su bo td)) 0
   end.
 
 (* ------------------------------------------------------------------ projections used by the Prop-level theorems *)
@@ -574,4 +688,8 @@ Definition run_old (s : scenario) : list oitem :=
   | SFail ops => run_from_old st0 ops
   | SCount custom cops => crun_from (cst0 custom) cops
   | SRel b rops => rrun_gen resolve_old (rst0 b) rops
+  | STest pre su bo td => trun_gen false pre su bo td
   end.
+(* the variant that reports nothing once the running test has a failure *)
+Definition run_mute (s : scenario) : list oitem :=
+  match s with STest pre su bo td => trun_gen true pre su bo td | _ => run s end.
